@@ -182,14 +182,18 @@ GradOK(e) ==
   /\ GradVecOK(e.gx, e.terms, c.dtype) /\ (~c.frozen => GradVecOK(e.gw, e.terms, c.dtype)) /\ (c.bias => GradVecOK(e.gb, e.terms, c.dtype))
 
 (* ======================== C12: calibration scales ========================================================== *)
-\* |after - (m*before + (1-m)*new)| <= 6u max(before, new)   with m = mm / 2^30
+\* |after - (m*before + (1-m)*new)| <= 6u max(before, new) + 2 eta   with m = mm / 2^30
+\* (eta, the smallest subnormal: scales of float16 models reach the subnormal range, where each of the two products and the
+\*  sum is rounded with an ABSOLUTE error of eta/2 - found with seed 3: 0.5*161eta + 0.5*161eta = 160eta)
+EtaExpL(fmt) == IF fmt = "float32" THEN -149 ELSE IF fmt = "float16" THEN -24 ELSE -133
 EmaOK(before, new, after, mm, fmt) ==
   LET E == MinI2(MinI2(before.e, new.e), after.e)
       b == ValAt(before, E) n == ValAt(new, E) a == ValAt(after, E)
       want == SAdd(SMk(b.s, BMul(b.m, BOfInt(mm))), SMk(n.s, BMul(n.m, BOfInt(1073741824 - mm))))
       got == SShl(a, 30)
       mx == BShl(BMax(b.m, n.m), 30)
-  IN BLe(SDist(got, want), BAdd(URel(mx, 6, PBits(fmt)), BShrCeil(mx, 26)))
+      eta2 == IF EtaExpL(fmt) - E + 31 <= 0 THEN <<1>> ELSE BShl(<<1>>, EtaExpL(fmt) - E + 31)       \* 2 eta at the scale of `got`
+  IN BLe(SDist(got, want), BAdd(BAdd(URel(mx, 6, PBits(fmt)), BShrCeil(mx, 26)), eta2))
 NearS(x, y, fmt) == LET E == MinI2(x.e, y.e) a == ValAt(x, E) b == ValAt(y, E) IN BLe(SDist(a, b), URel(BMax(a.m, b.m), 2, PBits(fmt)))
 MomInt(mo) == IF mo = "m50" THEN 536870912 ELSE IF mo = "m25" THEN 268435456 ELSE IF mo = "m0" THEN 0 ELSE 966367642   \* round(m * 2^30)
 ModuleIndex(e, name) == CHOOSE i \in 1..Len(e.mods) : e.mods[i].name = name
